@@ -18,7 +18,7 @@ from lib.swayexec import run_packages, observe
 # exhaustive generation configurations (spec/Gen_StdModels_<name>.cfg) and simulation configurations
 GEN = ["vec_u64_new", "vec_u64_cap", "vec_u64_bases", "vec_u8_bases", "vec_u256_bases", "vec_pair_bases",
        "bytes_new", "bytes_bases", "string"]
-SIM = ["vec_u64", "vec_u8", "vec_u256", "vec_pair", "bytes"]
+SIM = ["vec_u64", "vec_u8", "vec_u256", "vec_pair", "bytes", "vec_u64_grow", "vec_pair_grow", "bytes_grow"]
 SIM_SEEDS = [11, 12]
 SIM_WALKS = 100
 NUM = ["u8", "u16", "u32", "u64", "u128a", "u128b", "u256a", "u256b", "u256c"]
